@@ -2,7 +2,7 @@
     texts in a worker sub-process (2 s limit) and walks a returned module through the public accessors;
     what it observed is classified here. *)
 From Coq Require Import List Bool Arith Strings.Byte.
-From YV Require Import Base.Verdict YLex.Keywords YLex.Model YLex.Spec.
+From YV Require Import Base.Verdict YLex.Keywords YLex.Model YLex.Spec Load.Model.
 Import ListNotations.
 
 Inductive obs :=
@@ -18,12 +18,21 @@ Inductive case :=
 | CLoad (input : list byte) (lexical : bool) (o : obs)
 (** every truncation point of one text: [codes] has one entry per prefix length 0..length-1
     (0 module, 1 error, 2 reported separately as a CLoad case) *)
-| CPrefixes (input : list byte) (codes : list nat).
+| CPrefixes (input : list byte) (codes : list nat)
+(** an import graph (Load/Model.v): [input] is the text that was loaded, [files] what the opener held
+    (name index, text); the opener refused every request after the first [fuse]; [opens] are the
+    names it was asked for, in order (empty when the worker died or was killed) *)
+| CImports (g : igraph) (input : list byte) (files : list (nat * list byte)) (fuse : nat)
+           (opens : list nat) (o : obs)
+(** a grouping graph (Load/Model.v) and the text that was loaded *)
+| CUses (g : ugraph) (input : list byte) (o : obs).
 
 (** the property: a module or an error, nothing else *)
 Definition spec_ok (o : obs) : bool := match o with OModule | OError => true | _ => false end.
 
 Definition is_module (o : obs) : bool := match o with OModule => true | _ => false end.
+Definition is_error (o : obs) : bool := match o with OError => true | _ => false end.
+Definition is_timeout (o : obs) : bool := match o with OTimeout => true | _ => false end.
 
 (** what the lexer model says about a load that involves this text only: a lexer error makes the
     load fail; a complete token stream says nothing (the parser decides) *)
@@ -72,6 +81,35 @@ Fixpoint prefixes_ok (input : list byte) (codes : list nat) (k : nat) : bool :=
      end) && prefixes_ok input codes' (S k)
   end.
 
+(** the structure a graph case is classified by is the structure of the texts that were loaded *)
+Fixpoint files_match (fs : list (nat * ifile)) (ts : list (nat * list byte)) : bool :=
+  match fs, ts with
+  | [], [] => true
+  | (k, f) :: fs', (k', t) :: ts' => Nat.eqb k k' && bytes_eqb (render_ifile f) t && files_match fs' ts'
+  | _, _ => false
+  end.
+
+Definition imports_texts_ok (g : igraph) (input : list byte) (files : list (nat * list byte)) : bool :=
+  igraph_wf g && bytes_eqb (render_ifile (ig_main g)) input && files_match (ig_files g) files.
+
+(** what the model of the import loop says: the load ends; the opener is never asked twice for a
+    name; when every text is stored under the name it declares the load succeeds iff every reachable
+    import has a text, and on success exactly the reachable names were requested.  (Texts stored
+    under another name make the outcome depend on Go's map order: only termination is predicted.) *)
+Definition imports_corr (g : igraph) (opens : list nat) (o : obs) : bool :=
+  nodupb opens &&
+  match imp_model g with
+  | IDone mo => if regular g then is_module o && same_set opens mo else spec_ok o
+  | IFail _ => if regular g then is_error o else spec_ok o
+  | IFuel => false
+  end.
+
+(** the spec oracle for an import graph, independent of the loop: a module or an error, and promptly -
+    the opener was asked for at most twice as many texts as there are distinct import targets, and the
+    load did not run into the opener's fuse *)
+Definition imports_spec (g : igraph) (fuse : nat) (opens : list nat) (o : obs) : bool :=
+  spec_ok o && Nat.leb (length opens) (2 * length (dedup (import_targets g))) && Nat.leb (length opens) fuse.
+
 Definition classify (c : case) : verdict :=
   match c with
   | CLoad input lexical o =>
@@ -80,4 +118,15 @@ Definition classify (c : case) : verdict :=
                  (spec_ok o) (region input o)
   | CPrefixes input codes =>
     classify_gen (prefixes_ok input codes 0 && Nat.eqb (length codes) (length input)) true None
+  | CImports g input files fuse opens o =>
+    classify_gen (imports_texts_ok g input files && imports_corr g opens o && negb (lexer_panic o))
+                 (imports_spec g fuse opens o) None
+  | CUses g input o =>
+    (* the resolver is not modelled beyond this: outside the region of known finding 2 (a reachable
+       cycle of direct uses between groupings without data nodes) the load ends with a module or an
+       error; inside, nothing is predicted *)
+    classify_gen (ugraph_wf g && bytes_eqb (render_ugraph g) input && negb (lexer_panic o) &&
+                  (bare_uses_cycle g || spec_ok o))
+                 (spec_ok o)
+                 (if is_timeout o && bare_uses_cycle g then Some kf_uses_cycle else None)
   end.
